@@ -1041,6 +1041,44 @@ fn main() {
             }
         }
         res.cov("same_url_other_method_requests", same_url);
+        // the limits are those of the request's method and url for every caller: uploads by a caller that is not elevated
+        // (to the IMDS endpoint; the two root-only endpoints refuse such a caller anyway)
+        let mut nonelev = 0u64;
+        if std::env::var("VERIF_REPLAY").is_err() {
+            let alice_pid = w.spawn_proc("/usr/bin/vt-curl", &["100111"], Some(1001));
+            let arec = AuditRec::to(world::IMDS, 1001, alice_pid, false);
+            w.hosts.imds.set_responder(responder());
+            for (m, t, limit) in [("PUT", "/vmAgentLog", high), ("POST", "/machine/?comp=telemetrydata", high), ("POST", "/t?id=9", low)] {
+                for (len, chunked) in [(low, false), (low + 1, false), (2 * low, true)] {
+                    sport = if sport >= 39000 { 36000 } else { sport + 1 };
+                    let body = pattern(len, 21);
+                    let cs = [65536usize];
+                    let raw = build_request(m, t, &[("Host", b"metadata")], Some(&body), if chunked { Some(&cs) } else { None });
+                    let cur = w.hosts.imds.cursor();
+                    let resp = w.connect(Some(sport), Some(&arec)).map_err(|e| e.to_string()).and_then(|mut c| {
+                        let _ = c.send_watchful(&raw);
+                        let r = c.read_response(false, Duration::from_secs(30)).map(|m| m.status());
+                        c.close();
+                        r
+                    });
+                    std::thread::sleep(Duration::from_millis(5));
+                    let got = w.hosts.imds.requests_since(cur);
+                    let bytes = w.hosts.imds.bytes_since(cur);
+                    evals += 1;
+                    nonelev += 1;
+                    let case = json!({"family": "caller-not-elevated", "method": m, "target": t, "limit": limit, "length": len, "chunked": chunked});
+                    if len > limit {
+                        nontrivial.insert(case.to_string());
+                        if bytes != 0 || !matches!(resp, Ok(s) if (400..500).contains(&s)) {
+                            res.violation("over-limit-body-relayed:caller-not-elevated", &format!("{bytes} bytes of a {len}-byte body (limit {limit}) reached the host; client got {:?}", resp), case);
+                        }
+                    } else if !(resp == Ok(200) && got.len() == 1 && got[0].1.body == body) {
+                        res.violation("within-limit-body-not-relayed-intact:caller-not-elevated", &format!("{m} {t} with {len} bytes (limit {limit}) by a caller that is not elevated: status {:?}, {} requests at host", resp, got.len()), case);
+                    }
+                }
+            }
+        }
+        res.cov("uploads_by_a_caller_not_elevated", nonelev);
         res.cov("uploads_after_failed_uploads", after_failed);
         // keep-alive sequences: every ordered pair of request kinds on one connection; each request
         // is judged by the limit of its own method and URL
@@ -1103,7 +1141,7 @@ fn main() {
                 }
             }
         }
-        res.cov("rule", "body lengths limit-1, limit, limit+1, 2*limit for limit = 102400 on 10 non-exempt (method, URL) pairs incl. near misses of the exempt URLs and of their method tokens (put, Put, post), and for limit = 104857600 on the exempt uploads (thorough: both uploads and their upper-case variants, both framings; quick: PUT /vmAgentLog at limit and limit+1 with content-length), each as content-length and as chunked; plus the same url asked with the exempt and with another method directly one after the other (both orders, fresh and kept-alive connections); plus good exempt uploads after 2 / 3 exempt uploads that failed while being read (client gone mid-chunk, malformed chunk size); plus every ordered pair of 8 request kinds (exempt/non-exempt, small/over the low limit, both framings, 64 KiB and 1 KiB chunks) on one keep-alive connection, the second request being judged also after a refused first one when the server keeps the connection; relayed bodies compared by length and SHA-256; non-trivial = over the limit".to_string());
+        res.cov("rule", "body lengths limit-1, limit, limit+1, 2*limit for limit = 102400 on 10 non-exempt (method, URL) pairs incl. near misses of the exempt URLs and of their method tokens (put, Put, post), and for limit = 104857600 on the exempt uploads (thorough: both uploads and their upper-case variants, both framings; quick: PUT /vmAgentLog at limit and limit+1 with content-length), each as content-length and as chunked; plus uploads around the low limit by a caller that is not elevated (exempt and non-exempt urls, IMDS endpoint); plus the same url asked with the exempt and with another method directly one after the other (both orders, fresh and kept-alive connections); plus good exempt uploads after 2 / 3 exempt uploads that failed while being read (client gone mid-chunk, malformed chunk size); plus every ordered pair of 8 request kinds (exempt/non-exempt, small/over the low limit, both framings, 64 KiB and 1 KiB chunks) on one keep-alive connection, the second request being judged also after a refused first one when the server keeps the connection; relayed bodies compared by length and SHA-256; non-trivial = over the limit".to_string());
     }
 
     for p in world::take_panics() {
